@@ -621,6 +621,26 @@ func runCheck(prop, tier string, only, casesOverride, budgetOverride int) int {
 			sitesHit++
 		}
 	}
+	// which yield sites of gopatch no case of this run reached (a list next to the
+	// build, for steering workloads; the count goes into the evidence)
+	if sb, err := os.ReadFile(filepath.Join(verifRoot, "build", prop, "sites.json")); err == nil && only < 0 {
+		var sites []struct {
+			ID   int    `json:"id"`
+			File string `json:"file"`
+			Line int    `json:"line"`
+			Func string `json:"func"`
+		}
+		if json.Unmarshal(sb, &sites) == nil {
+			var unc []string
+			for _, st := range sites {
+				w, b := (st.ID>>6)&(1<<14-1), uint(st.ID&63)
+				if w >= len(cov) || cov[w]&(1<<b) == 0 {
+					unc = append(unc, fmt.Sprintf("%s:%d %s", st.File, st.Line, st.Func))
+				}
+			}
+			os.WriteFile(filepath.Join(verifRoot, "build", prop, "uncovered_sites.txt"), []byte(strings.Join(unc, "\n")+"\n"), 0o644)
+		}
+	}
 	var missing []string
 	for _, p := range info.RequiredProbes {
 		if a.stats.Probes[p] == 0 {
